@@ -7,6 +7,10 @@ Specification for property C08 (a), written from the property's sentence, NOT fr
    history pruning deletes only the oldest revisions beyond revisionHistoryLimit, never the
    current one."
 
+"contains" = every object of the revision, inline in the ObjectSet or in one of the ObjectSlices its
+phases reference (C14: an ObjectSet that references ObjectSlices behaves exactly like the same
+ObjectSet with the objects inline).
+
 Everything here is a predicate on (revision states of the scenario, write list).  No scan, no sort:
 "newer", "next newer", "oldest" are expressed by comparing `status.revision` numbers and counting.
 All predicates are decidable; the driver's monitor is `verdict` evaluated on the write list the
@@ -28,10 +32,25 @@ def ControlsNothingIn : Option (List Key) → List Key → Prop
   | none, _ => False
   | some l, objs => ∀ k ∈ l, k ∉ objs
 
+instance (all : List Rev) (r y : Rev) : Decidable (IsNextNewer all r y) := by
+  unfold IsNextNewer; infer_instance
+
 instance (co : Option (List Key)) (objs : List Key) : Decidable (ControlsNothingIn co objs) :=
   match co with
   | none => isFalse (by simp [ControlsNothingIn])
   | some l => inferInstanceAs (Decidable (∀ k ∈ l, k ∉ objs))
+
+/-- "controls nothing that the revision `y` contains".  What `y` contains is ALL its objects: the
+ones inline in `spec.phases[*].objects` and the ones in the ObjectSlices its phases reference
+(`Rev.allObjects`) — where an object of a revision is stored makes no difference to what the
+revision is going to adopt.  When one of the referenced ObjectSlices does not exist, what else `y`
+contains is unknown: then only a revision that controls nothing at all "controls nothing that `y`
+contains". -/
+def ControlsNothingOf (co : Option (List Key)) (y : Rev) : Prop :=
+  ControlsNothingIn co y.allObjects ∧ (y.sliceMissing = true → co = some [])
+
+instance (co : Option (List Key)) (y : Rev) : Decidable (ControlsNothingOf co y) := by
+  unfold ControlsNothingOf; infer_instance
 
 /-- The condition under which the property's sentence allows revision `r` to be archived, given
 all revisions `all` of the deployment as read by the pass. -/
@@ -40,7 +59,7 @@ def Justified (all : List Rev) (r : Rev) : Prop :=
   (∃ y ∈ all, r.rev < y.rev) ∧                               -- it is not the newest
   ((∃ y ∈ all, r.rev < y.rev ∧ y.available = true) ∨         -- a newer revision is Available
    (r.available = false ∧                                    -- or: itself unavailable, and
-    ∃ y ∈ all, IsNextNewer all r y ∧ ControlsNothingIn r.controllerOf y.objects))
+    ∃ y ∈ all, IsNextNewer all r y ∧ ControlsNothingOf r.controllerOf y))
 
 instance (all : List Rev) (r : Rev) : Decidable (Justified all r) := by
   unfold Justified IsNextNewer; infer_instance
@@ -135,10 +154,39 @@ def kindOf : Write → String
   | .pause _ => "pause" | .ppause _ => "ppause" | .activate _ => "activate"
   | .archive _ => "archive" | .delete _ => "delete"
 
+/-- Why the `archive` write addressed to `id` is not allowed (diagnosis only; `verdict` decides
+with `WriteOK`).  The first listed revision of that name is explained. -/
+def whyNotArchive (all : List Rev) (id : Nat) : String :=
+  match all.find? (fun r => r.id == id) with
+  | none => "archived-a-name-that-is-not-listed"
+  | some r =>
+    if r.statusPaused = false then "archived-before-it-confirmed-it-is-paused"
+    else if ¬ (∃ y ∈ all, r.rev < y.rev) then "archived-the-newest-revision"
+    else if r.available = true then "archived-while-Available-and-no-newer-revision-is-Available"
+    else
+      match all.find? (fun y => decide (IsNextNewer all r y)) with
+      | none => "archived-without-a-next-newer-revision"
+      | some y =>
+        match r.controllerOf with
+        | none => "archived-before-it-reported-controllerOf"
+        | some co =>
+          match co.find? (fun k => y.allObjects.contains k) with
+          | some k =>
+            "archived-although-next-newer-revision-contains-an-object-it-still-controls key=" ++ toString k ++
+              " next=" ++ toString y.id ++
+              (if y.objects.contains k then " (inline)" else " (in-an-ObjectSlice-of-the-next-newer-revision)")
+          | none =>
+            if y.sliceMissing then
+              "archived-while-it-still-controls-objects-and-an-ObjectSlice-of-the-next-newer-revision-is-missing next=" ++
+                toString y.id
+            else "archived-without-justification"
+
 /-- Monitor verdict for a write list: `"ok"` or the first offending write. -/
 def verdict (i : Input) (ws : List Write) : String :=
   match ws.find? (fun w => !decide (WriteOK i w)) with
-  | some w => "bad " ++ kindOf w ++ " id=" ++ toString w.id
+  | some w =>
+    "bad " ++ kindOf w ++ " id=" ++ toString w.id ++
+      (match w with | .archive id => " " ++ whyNotArchive i.revs id | _ => "")
   | none => if WF i → GcClosed (specPrev i) (dels ws) then "ok" else "bad gc-gap"
 
 end Pko.Model.ArchiveSpec
